@@ -5,14 +5,25 @@ namespace MaddyVerif.Expect.FuncSkelC17
 def funcs : List (String × String) := [
   ("framework/address/norm.go:CleanDomain", "e67eccbc0b729fe1"),
   ("framework/address/norm.go:Equal", "5d58a4209ba685f3"),
+  ("framework/address/norm.go:FQDNDomain", "af0670beac44cc39"),
   ("framework/address/norm.go:ForLookup", "b44bc88d5db8964d"),
   ("framework/address/norm.go:IsASCII", "5e5f3987262bbd2d"),
+  ("framework/address/norm.go:PRECIS", "50e63379022eeee7"),
+  ("framework/address/norm.go:PRECISFold", "c166d7b28d01cd69"),
+  ("framework/address/norm.go:precisEmail", "fc42a32e3f237561"),
+  ("framework/address/rfc6531.go:SelectIDNA", "e0700e941932dff7"),
   ("framework/address/rfc6531.go:ToASCII", "8bd2a2da575de4f6"),
   ("framework/address/rfc6531.go:ToUnicode", "13347bc8d63ff816"),
   ("framework/address/split.go:QuoteMbox", "9f5d50d7d567e820"),
   ("framework/address/split.go:Split", "2149bd8e40fd6735"),
   ("framework/address/split.go:UnquoteMbox", "1af0b63a82816d66"),
+  ("framework/address/validation.go:Valid", "178bb36a9de42c64"),
+  ("framework/address/validation.go:ValidDomain", "777ecf3120b61fb5"),
+  ("framework/address/validation.go:ValidMailboxName", "98e86c66ed0a4ead"),
+  ("framework/dns/idna.go:SelectIDNA", "0e2c178b1a0de365"),
+  ("framework/dns/idna.go:ToUnicode", "7a4171a12e750641"),
   ("framework/dns/norm.go:Equal", "5d58a4209ba685f3"),
+  ("framework/dns/norm.go:FQDN", "9c7753f434886638"),
   ("framework/dns/norm.go:ForLookup", "db7766b1858341fc")
 ]
 
